@@ -61,6 +61,20 @@ pub fn build_cert(a: &HashMap<&str, &str>) -> Vec<u8> {
         "both" => vec![ExtendedKeyUsagePurpose::ServerAuth, ExtendedKeyUsagePurpose::ClientAuth],
         _ => vec![],
     };
+    // decoy=<k>: the 44 bytes <Ed25519 SubjectPublicKeyInfo DER header || public key of identity k> placed in the
+    // serial number (a field in front of the real subjectPublicKeyInfo); decoyext=<k>: the same in a private
+    // extension (behind it).  The certificate stays valid and correctly self-signed with its own key.
+    let spki_of = |k: &str| -> Vec<u8> {
+        let mut v = hex::decode("302a300506032b6570032100").unwrap();
+        v.extend_from_slice(&rcgen::PublicKeyData::der_bytes(&keypair(k)));
+        v
+    };
+    if let Some(k) = a.get("decoy") {
+        params.serial_number = Some(rcgen::SerialNumber::from_slice(&spki_of(k)));
+    }
+    if let Some(k) = a.get("decoyext") {
+        params.custom_extensions.push(rcgen::CustomExtension::from_oid_content(&[1, 3, 6, 1, 4, 1, 99999, 1], spki_of(k)));
+    }
     let subject = keypair(a.get("k").unwrap_or(&"1"));
     let by = *a.get("by").unwrap_or(&"self");
     let cert = if by == "self" {
